@@ -379,15 +379,15 @@ pub fn generate(tier: &str, seed: u64, out: &Path, nshards: usize, replay: Optio
                 }
             }
         }
-        let scale = if tier == "thorough" { 8 } else { 1 };
+        let scale = if tier == "thorough" { 6 } else { 1 };
         let gcfg = GenCfg { max_defs: 5, allow_bits: false, docs: false, ..GenCfg::default() };
         let fixed = fixed_probe();
         let fixed_reg = reggen::to_registry(&fixed);
-        for _ in 0..(90 * scale) {
+        for _ in 0..(150 * scale) {
             let (ops, bases) = rand_history(&mut rng, &fixed_reg, false);
             push(&mut ctx, "fixed-probe", &fixed, &ops, &bases);
         }
-        for _ in 0..(110 * scale) {
+        for _ in 0..(200 * scale) {
             let p = reggen::rand_program(&mut rng, &gcfg);
             let (rj, _) = reggen::build(&p);
             let reg = reggen::to_registry(&rj);
@@ -395,7 +395,7 @@ pub fn generate(tier: &str, seed: u64, out: &Path, nshards: usize, replay: Optio
             push(&mut ctx, "random-probe", &rj, &ops, &bases);
         }
         // derive registrations: a history and a permutation (with repetitions) of its derive calls
-        for _ in 0..(40 * scale) {
+        for _ in 0..(60 * scale) {
             let (rj, reg) = if rng.chance(1, 2) {
                 (fixed.clone(), reggen::to_registry(&fixed))
             } else {
